@@ -19,6 +19,7 @@ NOTE_TEXT = ['(BONG)', '<VT IN>', '(', ')', '()', '<>', '( x )', '  (padded note
              '(two\nlines)', '<a\nb>', '(\n)', '\n(note after a line feed)\n', 'plain\n(second line in brackets)',
              '(mix>', '<mix)', '', ' ', '\n  \n', 'plain (with) brackets', '<a> and <b>', '(a) then (b)']
 HOSTILE_IDS = ['S1', 'S10', 'S1 ', ' S1', 's1', 'S01', 'A&B', 'x<y', 'q"q', "o'o", '5" x 7\' card',
+               'NEWS,AM,S1', 'SPORT,AM,S1', 'OPENMEDIA,7f3a.22,S10', '{6B29FC40-CA47-1067}', 'a{0}b', '%s %d {x}',
                'B"][itemID=\'B\'][itemID="B', 'éè', '\U0001F600',
                'a,b,c', '0', '-1', 'None', 'ID WITH SPACE', 'storyID', 'item', '..']
 
@@ -130,7 +131,14 @@ def split_ids(rng, text, p=0.5):
 
 
 def rand_timing(rng, mode='any'):
-    """Timing metadata block or None.  mode: any | timed | none"""
+    """Timing metadata block or None.  mode: any | timed | none | wild"""
+    if mode == 'wild':
+        # values float() reads that are not finite or do not fit a timedelta (C12 workloads only:
+        # the accessor properties are not claimed for such "durations")
+        if rng.random() < 0.4:
+            return B.timing(**{rng.choice(['duration', 'text_time', 'media_time']):
+                               rng.choice(['nan', 'inf', '-inf', '1e15', '1e400', '-1e15'])})
+        mode = 'any'
     if mode == 'none' or (mode == 'any' and rng.random() < 0.3):
         if mode == 'any' and rng.random() < 0.25:
             return B.timing(payload=False)       # mosExternalMetadata without mosPayload
@@ -407,10 +415,14 @@ def _rand_message(rng, state, kind, message_id, ids, pool=None, ro_id='RO', timi
         ic = Ids('ss%d-' % rng.randint(0, 999))
         for _ in range(rng.randint(0, 5)):
             r = rng.random()
-            if r < 0.45:
+            if r < 0.4:
                 body.append(rand_item(rng, ic.new(), pool, rich, tag='storyItem'))
-            elif r < 0.85:
+            elif r < 0.75:
                 body.append(E('p', rng.choice(text_pool('notes') + pool)))
+            elif r < 0.87:
+                # other elements the schema (or a vendor) puts directly into the body
+                body.append(E(rng.choice(['storyPresenter', 'storyPresenterRR', 'Read1stMEMasBody', 'em', 'tab',
+                                          'story', 'Item', 'item', 's', 'pi']), rng.choice(pool)))
             else:
                 nested = E('wrap', None, rand_item(rng, ic.new(), pool, False, tag='storyItem'))
                 body.append(nested)
@@ -437,11 +449,16 @@ def _rand_message(rng, state, kind, message_id, ids, pool=None, ro_id='RO', timi
         I = [i for i in (item_ids(st) if st is not None else []) if i is not None]
         ic = Ids('m%d-' % rng.randint(0, 9999))
 
+        elsewhere = [i for st2 in state.stories if st2 is not st for i in item_ids(st2)
+                     if i is not None and i not in I]
+
         def carried_items(same=None):
             n = rng.choice([1, 1, 2, 3])
             out = []
             for k in range(n):
                 i = same if (same is not None and k == 0 and rng.random() < 0.6) else ic.new()
+                if same is None and elsewhere and rng.random() < 0.15:
+                    i = rng.choice(elsewhere)      # an item ID that only ANOTHER story uses (IDs are per story)
                 out.append(rand_item(rng, i, pool, rich))
             return out
         if kind in ('roItemInsert', 'EAItemInsert'):
@@ -475,7 +492,9 @@ def _rand_message(rng, state, kind, message_id, ids, pool=None, ro_id='RO', timi
     if kind == 'roReplace':
         txt = rand_ro(rng, pool=pool, timing=timing, ids=ids, rich=rich, ro_id=ro_id,
                       message_id=message_id, pretty=pretty)
-        return txt.replace('<roCreate', '<roReplace').replace('</roCreate>', '</roReplace>')
+        attrs = rng.choice(['', '', ' rev="7"', ' rev="7" lang="en-GB"'])      # attributes on the message element itself
+        txt = txt.replace('<roCreate', '<roReplace').replace('</roCreate>', '</roReplace>')
+        return txt.replace('<roReplace', '<roReplace' + attrs, 1)
     if kind == 'roMetadataReplace':
         used = set()
         carried = [E('roSlug', rng.choice(pool))]
@@ -554,9 +573,9 @@ def _k_tuples(pool, kmax):
             yield list(t)
 
 
-def story_grid_messages(S, kmax=3, full=True):
+def story_grid_messages(S, kmax=3, full=True, unk='ZZ-unknown'):
     """Yield (kind, kwargs) for every story-level case against story IDs S."""
-    UNK = 'ZZ-unknown'
+    UNK = unk
     new = lambda i: simple_story(i, 1)
     tgt_all = list(S) + [UNK, BLANK]
     # append
@@ -635,15 +654,18 @@ def story_grid_messages(S, kmax=3, full=True):
                 yield 'EAStorySwap', dict(ids=[a, b], target=BLANK if te else ABSENT, target_el=te)
 
 
-def item_grid_messages(story_id, I, other_story=None, kmax=3, full=True):
+def item_grid_messages(story_id, I, other_story=None, kmax=3, full=True, unk='zz-unknown', elsewhere=None):
     """Yield (kind, kwargs) for every item-level case against items I of story_id."""
-    UNK = 'zz-unknown'
+    UNK = unk
     new = lambda i: B.item(i, 'new ' + i, [E('objID', 'o-' + i)])
     srefs = [story_id]
     tgt_all = list(I) + [UNK, BLANK]
     for sref in srefs:
         for kind in ('roItemInsert', 'EAItemInsert'):
             for t in tgt_all:
+                if elsewhere:
+                    # the inserted item carries an ID that only another story uses
+                    yield kind, dict(story_ref=sref, target=t, carried=[new(elsewhere), new('n2')])
                 yield kind, dict(story_ref=sref, target=t, carried=[new('n1')])
                 yield kind, dict(story_ref=sref, target=t, carried=[new('n1'), new('n2'), new('n3')])
         for kind in ('roItemReplace', 'EAItemReplace'):
